@@ -55,7 +55,8 @@ class SeqGen:
     """Random, mostly-valid operation scripts over a small name pool."""
 
     def __init__(self, rng, weights, n_ops=(8, 40), allow_streams=False, odd=0.08, malformed=0.04,
-                 projects=None, adv=None):
+                 projects=None, adv=None, multi=False):
+        self.multi = multi
         self.r = rng
         self.w = dict(weights)
         self.n_ops = n_ops
@@ -125,6 +126,13 @@ class SeqGen:
 
     # -- one case
     def case(self):
+        for _ in range(20):
+            ops = self.case1()
+            if not timer_clash(ops):
+                return ops
+        return [o for o in ops if not o.startswith("BG ")]
+
+    def case1(self):
         r = self.r
         st = {"topics": set(), "subs": set(), "streams": {}, "next_sid": 1}
         ops = []
@@ -202,14 +210,41 @@ class SeqGen:
             ids = self.ackids()
             return ["MOD %s %d %d %s" % (hx(self.sub(st)), self.pick(MOD_SECS), len(ids), " ".join(ids))]
         if k == "ADV":
-            return ["ADV %d" % (self.pick(self.adv) * MS)]
+            # never jump over the 300 s limit of a blocked Pull together with other timers: stop 1 ms before it,
+            # then step onto it (tokio fires all timers of one advance at once, in an order the model does not fix)
+            adv = self.pick(self.adv)
+            now = st.get("now", 0)
+            target = now + adv
+            out = []
+            for lim in sorted(set(st.get("limits", []))):
+                if now < lim <= target:
+                    if lim - 1 > now:
+                        out.append("ADV %d" % ((lim - 1 - now) * MS))
+                    out.append("ADV %d" % MS)
+                    now = lim
+            if target > now:
+                out.append("ADV %d" % ((target - now) * MS))
+            st["now"] = target
+            st["limits"] = [l for l in st.get("limits", []) if l > target]
+            return out
         if k == "STATS":
             return ["STATS " + hx(self.sub(st))]
         if k == "REG":
             return ["REG"]
+        if k == "BGPULL":
+            bid = st.setdefault("next_bg", 100)
+            st["next_bg"] = bid + 1
+            st.setdefault("bgs", []).append(bid)
+            m = self.pick(PULL_MAX)
+            st.setdefault("limits", []).append(st.get("now", 0) + 300000)
+            return ["BG %d PULL %s %d 0" % (bid, hx(self.sub(st)), m), "Q", "JOIN %d" % bid]
+        if k == "JOIN":
+            if not st.get("bgs"):
+                return []
+            return ["JOIN %d" % self.pick(st["bgs"])]
         if k == "SO":
-            # at most one open stream per subscription (several consumers race)
-            free = sorted(s for s in st["subs"] if s not in st["streams"].values())
+            # by default at most one open stream per subscription; with multi=True several consumers share one
+            free = sorted(s for s in st["subs"] if self.multi or s not in st["streams"].values())
             if not free or not self.allow_streams:
                 return []
             s = self.pick(free)
@@ -244,9 +279,39 @@ class SeqGen:
         raise ValueError(k)
 
 
+def timer_clash(ops):
+    """True when the 300 s limit of a blocked Pull could fall on the same 1 ms tick as some ack deadline of the
+    case (conservatively: any op instant + any deadline length used in the case, rounded)."""
+    now, instants, secs, limits = 0, {0}, {10}, []
+    for o in ops:
+        t = o.split(" ")
+        if t[0] == "ADV":
+            now += int(t[1]) // MS
+            instants.add(now)
+        elif t[0] == "CS":
+            secs.add(max(10, int(t[3])))
+        elif t[0] == "MOD":
+            secs.add(min(max(int(t[2]), 0), 600))
+        elif t[0] == "SS":
+            for x in t[5:]:
+                if x.lstrip("-").isdigit():
+                    secs.add(min(max(int(x), 0), 600))
+        elif t[0] == "BG":
+            limits.append(now + 300000)
+    if not limits:
+        return False
+    dls = set()
+    for i in instants:
+        for sc in secs:
+            d = deadline_of(i, sc)
+            dls.update((d - 1, d, d + 1))
+    return any(l in dls for l in limits)
+
+
 W_DATA = {"PUB": 8, "PULL": 8, "ACK": 5, "NACK": 3, "MOD": 4, "ADV": 6, "STATS": 3}
 W_CONTROL = {"CT": 4, "GT": 2, "DT": 3, "CS": 5, "GS": 3, "DS": 3, "LT": 2, "LS": 2, "LTS": 3, "REG": 1}
 W_STREAM = {"SO": 3, "SS": 5, "SR": 4, "SC": 1}
+W_WAIT = {"BGPULL": 5, "JOIN": 6, "SO": 3, "SR": 6, "SS": 2}
 
 
 def merge(*ws):
@@ -536,4 +601,76 @@ def payload_cases(seed, n, prefix="pl"):
         ops += ["DT " + hx(T), "CT " + hx(T), "CS %s %s 10 ~" % (hx(sname("p", "c")), hx(T)), "PUB %s 1 6e 0" % hx(T),
                 "PULL %s 5 1" % hx(sname("p", "c")), "PULL %s 100 1" % hx(S1), "GS " + hx(S1)]
         cases.append(("%s%d" % (prefix, i), ops))
+    return cases
+
+
+# ---------------------------------------------------------------- waiting consumers (C06) and deletion (C12)
+
+def wait_enum_cases(prefix="wq"):
+    """Every combination of up to three waiting consumers (stream max 1 / stream max 10 / blocked Pull max 1 /
+    blocked Pull max 5) with every availability event (publish 1, publish 3, nack, expiry, empty publish),
+    observed after each event."""
+    T, Sn = hx(tname("p", "t")), hx(sname("p", "s"))
+    kinds = {"s1": ("S", 1), "s10": ("S", 10), "p1": ("P", 1), "p5": ("P", 5)}
+    events = {
+        "pub1": ["PUB %s 1 61 0" % T], "pub3": ["PUB %s 3 61 0 62 0 63 0" % T], "pub0": ["PUB %s 0" % T],
+        "nack": ["MOD %s 0 1 @0" % Sn], "expire": ["ADV %d" % (10200 * MS)], "ack": ["ACK %s 1 @0" % Sn],
+    }
+    cases = []
+    import itertools
+    names = list(kinds)
+    combos = [c for r in (1, 2, 3) for c in itertools.product(names, repeat=r)]
+    evseqs = [("pub1", "nack", "pub3"), ("pub3", "expire", "pub1"), ("pub0", "pub1", "expire"),
+              ("pub1", "pub0", "pub3", "nack"), ("pub3", "ack", "expire", "pub0", "pub1")]
+    n = 0
+    for combo in combos:
+        for evs in evseqs:
+            ops = ["SEED %d" % (n % 50), "CT " + T, "CS %s %s 10 ~" % (Sn, T)]
+            cons = []
+            for i, k in enumerate(combo):
+                kind, mx = kinds[k]
+                if kind == "S":
+                    ops += ["SO %d %s %d 0 10" % (i + 1, Sn, mx), "SR %d" % (i + 1)]
+                    cons.append(("S", i + 1))
+                else:
+                    ops += ["BG %d PULL %s %d 0" % (100 + i, Sn, mx), "Q", "JOIN %d" % (100 + i)]
+                    cons.append(("P", 100 + i))
+            for e in evs:
+                ops += events[e]
+                ops.append("STATS " + Sn)
+                for kind, cid in cons:
+                    ops.append(("SR %d" if kind == "S" else "JOIN %d") % cid)
+                ops.append("STATS " + Sn)
+            cases.append(("%s-%s-%s" % (prefix, "_".join(combo), "_".join(evs)), ops))
+            n += 1
+    return cases
+
+
+def delete_release_cases(seeds, prefix="del"):
+    """DeleteSubscription with open streams (request side open or closed), blocked Pulls and calls racing it."""
+    T, Sn, S2 = hx(tname("p", "t")), hx(sname("p", "s")), hx(sname("p", "other"))
+    cases = []
+    for seed in seeds:
+        for variant in range(6):
+            ops = ["SEED %d" % seed, "CT " + T, "CS %s %s 10 ~" % (Sn, T), "CS %s %s 10 ~" % (S2, T),
+                   "PUB %s 2 61 0 62 0" % T, "PULL %s 1 1" % Sn]
+            a, b = (1, 2) if variant < 2 else (901, 902)
+            ops += ["SO %d %s 10 0 10" % (a, Sn), "SR %d" % a, "SO %d %s 1 0 10" % (b, Sn), "SR %d" % b,
+                    "SO 3 %s 5 0 10" % S2, "SR 3"]
+            if variant % 2 == 1:
+                ops.append("SC %d" % a)
+            ops += ["BG 100 PULL %s 5 0" % Sn, "Q", "JOIN 100", "BG 101 PULL %s 5 0" % S2, "Q", "JOIN 101"]
+            if variant >= 2:
+                # calls racing the deletion: started without letting the runtime settle
+                ops += ["BG 900 ACK %s 1 @0" % Sn, "BG 901 MOD %s 0 1 @1" % Sn]
+            if variant >= 4:
+                ops += ["BG 902 PULL %s 3 1" % Sn, "BG 903 GS %s" % Sn, "BG 904 PUB %s 1 63 0" % T]
+            ops += ["DS " + Sn, "SR %d" % a, "SR %d" % b, "JOIN 100"]
+            if variant >= 2:
+                ops += ["JOIN 900", "JOIN 901"]
+            if variant >= 4:
+                ops += ["JOIN 902", "JOIN 903", "JOIN 904"]
+            ops += ["SR 3", "JOIN 101", "GS " + Sn, "PULL %s 1 1" % Sn, "ACK %s 1 @0" % Sn, "LTS %s 0 -" % T,
+                    "PUB %s 1 64 0" % T, "SR 3", "JOIN 101", "SR %d" % a, "ADV %d" % (301000 * MS), "JOIN 100", "SR %d" % b]
+            cases.append(("%s-s%d-v%d" % (prefix, seed, variant), ops))
     return cases
